@@ -712,6 +712,7 @@ func runC19(c *core.Ctx) core.Meta {
 	checkMigrationTargetDevice(c, "R19.14")
 	checkAppendToOwnField(c, "R19.15", "In the page migration controller the two lists are the replies still owed to another controller and the chunks received from one: a received chunk appended to the owed replies makes the controller treat its own outgoing replies as received data.", 4, NewPkgInfo(c, pmcPkg))
 	checkNoSharedElementAcrossIterations(c, "R19.16", "In the driver's migration handshake the entries are the restart requests for the GPUs that were shot down: all of them would name the last GPU, which is restarted twice while the others never are.", 3, NewPkgInfo(c, driverPkg))
+	checkScanNotLeftByBreak(c, "R19.17", "PageMigrationController.sendReadReqLocalMemPort offers every queued read to the port: the walk over toSendLocalMemPort is not left by a break. Left after the first accepted send, the reads queued behind it are dropped from the list: their chunks are never copied and the migration never completes", pmcPkg, "PageMigrationController.sendReadReqLocalMemPort", "toSendLocalMemPort")
 	return core.Meta{Level: "other",
 		Explanation: "Structural clauses of page migration decided on SSA of pagemigrationcontroller, the CP control middleware and the driver handshake: back-pressure discipline incl. the retry-list idiom on the PMC's four list-driven send stages, FIELDS/ID threading along the pull→read→reply→write chunk pipeline (cursors advance by the transfer unit, chunk count = page size / unit), completion built only at counter 0 and counter reset, acknowledgement counted once, one migration at a time, stage order of the driver handshake (each stage entered only at its predecessor's counter 0), request fields (old PAddr → new page).",
 		NotDecided:  "byte equality of page contents, page-size divisibility by the transfer unit, memory controller behaviour",
